@@ -312,6 +312,10 @@ def _in_child(fn, *args):
         raise RuntimeError("child produced no result")
     kind, val = pickle.loads(data)
     if kind == "err":
+        files = [l for l in val.splitlines() if l.strip().startswith("File ")]
+        from sim import runner
+        if files and os.path.join(os.path.abspath(runner.REPO), "nmea2000") in files[-1]:
+            raise runner.LibraryCrash(val.strip().splitlines()[-1] + " (" + files[-1].strip() + ")")
         raise RuntimeError("child failed:\n" + val)
     return val
 
